@@ -198,3 +198,140 @@ func NameOf(f *ssa.Function) string {
 	}
 	return f.Name()
 }
+
+// ---- fields: the same recovery for renamed struct fields. The recorded table lists, for every named struct type
+// of the module, its fields (name, type). When a recorded field name is gone from a struct and a field new to it
+// has the same type - the only such new field, or the one at the same position - the new field is reported under
+// the recorded name by fieldName, through which every field name the rules compare is obtained.
+
+//go:embed pinned_fields.json
+var pinnedFieldsJSON []byte
+
+// PinnedStruct is the recorded field list of one named struct type.
+type PinnedStruct struct {
+	Type   string     `json:"type"` // pkgpath.Name
+	Fields [][2]string `json:"fields"`
+}
+
+// fieldRenamed maps "pkgpath.Type\x00newName" to the recorded name.
+var fieldRenamed = map[string]string{}
+
+func structTypes(p *Prog) map[string]*types.Struct {
+	out := map[string]*types.Struct{}
+	for _, pk := range p.Pkgs {
+		sc := pk.Types.Scope()
+		for _, n := range sc.Names() {
+			tn, ok := sc.Lookup(n).(*types.TypeName)
+			if !ok || tn.IsAlias() {
+				continue
+			}
+			if st, ok := tn.Type().Underlying().(*types.Struct); ok {
+				out[pk.PkgPath+"."+n] = st
+			}
+		}
+	}
+	return out
+}
+
+func fieldList(st *types.Struct) [][2]string {
+	q := func(p *types.Package) string { return p.Path() }
+	var out [][2]string
+	for i := 0; i < st.NumFields(); i++ {
+		out = append(out, [2]string{st.Field(i).Name(), types.TypeString(st.Field(i).Type(), q)})
+	}
+	return out
+}
+
+// PinnedFieldsTable renders the field table for the loaded tree (kmcheck -dump pinnedfields).
+func PinnedFieldsTable(p *Prog) []byte {
+	sts := structTypes(p)
+	var names []string
+	for n := range sts {
+		names = append(names, n)
+	}
+	sort.Strings(names)
+	var tab []PinnedStruct
+	for _, n := range names {
+		tab = append(tab, PinnedStruct{n, fieldList(sts[n])})
+	}
+	b, _ := json.MarshalIndent(tab, "", " ")
+	return append(b, '\n')
+}
+
+func computeFieldRenames(p *Prog) {
+	fieldRenamed = map[string]string{}
+	var tab []PinnedStruct
+	if err := json.Unmarshal(pinnedFieldsJSON, &tab); err != nil || len(tab) == 0 {
+		return
+	}
+	sts := structTypes(p)
+	for _, ps := range tab {
+		st, ok := sts[ps.Type]
+		if !ok {
+			continue
+		}
+		cur := fieldList(st)
+		curNames, oldNames := map[string]bool{}, map[string]bool{}
+		for _, f := range cur {
+			curNames[f[0]] = true
+		}
+		for _, f := range ps.Fields {
+			oldNames[f[0]] = true
+		}
+		used := map[string]bool{}
+		for oi, of := range ps.Fields {
+			if curNames[of[0]] {
+				continue
+			}
+			// candidates: fields new to the struct with the recorded type
+			var cands []int
+			for ci, cf := range cur {
+				if !oldNames[cf[0]] && !used[cf[0]] && cf[1] == of[1] {
+					cands = append(cands, ci)
+				}
+			}
+			pick := -1
+			switch {
+			case len(cands) == 1:
+				pick = cands[0]
+			case len(cands) > 1:
+				// the one that kept its place among the fields
+				for _, ci := range cands {
+					if ci == oi {
+						pick = ci
+					}
+				}
+			}
+			if pick < 0 {
+				continue
+			}
+			used[cur[pick][0]] = true
+			fieldRenamed[ps.Type+"\x00"+cur[pick][0]] = of[0]
+			RenameNotes = append(RenameNotes, "field "+strings.ReplaceAll(ps.Type, ModPath+"/", "")+"."+of[0]+" -> "+cur[pick][0])
+		}
+	}
+}
+
+// recordedField is the recorded name of field `name` of the (possibly pointer-to) named struct type t.
+func recordedField(t types.Type, name string) string {
+	if len(fieldRenamed) == 0 {
+		return name
+	}
+	if p, ok := t.Underlying().(*types.Pointer); ok {
+		t = p.Elem()
+	}
+	if p, ok := t.(*types.Pointer); ok {
+		t = p.Elem()
+	}
+	n, ok := t.(*types.Named)
+	if !ok || n.Obj().Pkg() == nil {
+		return name
+	}
+	if o, ok := fieldRenamed[n.Obj().Pkg().Path()+"."+n.Obj().Name()+"\x00"+name]; ok {
+		return o
+	}
+	return name
+}
+
+// RecordedField is recordedField, for rules that read field names from go/types directly.
+func RecordedField(t types.Type, name string) string { return recordedField(t, name) }
